@@ -42,7 +42,11 @@ def roundtrip(h, pkg, src):
     try:
         imp = ProtoImporter(pkg)
         imp.import_()
-        mods = list(imp.modules.values())
+        # the imported TOP-LEVEL modules: those no instance of the package refers to, in package order
+        used = {i.module.local for m in pkg.modules for i in m.instances if i.module.WhichOneof("to") == "local"}
+        mods = [v for (k, v), pm in zip(imp.modules.items(), pkg.modules) if pm.name not in used]
+        if len(imp.modules) != len(pkg.modules):
+            mods = list(imp.modules.values())
     except Exception as ex:
         ev["import_raised"] = True
         ev["exc"] = f"{type(ex).__name__}: {str(ex)[:200]}"
